@@ -1151,3 +1151,25 @@ def cursor_state_values(f, g, assume_equal_at_entry=True, edge_ok=None):
                 IN[m] = new
                 work.append(m)
     return IN, OUT, s0
+
+
+
+# ---------------------------------------------------------------------------------------------- handler-protocol census (validation of the model's assumptions)
+
+def protocol_census(run, model):
+    """reads the state handlers of the repository's own tests and examples (sa/census.py) and records how many follow H1/Hs/H3: the assumptions under which the
+    processor is analysed are the protocol people actually write.  Never a finding: deviations are listed in the evidence."""
+    import warnings
+    from . import census
+    from .model import repo_root
+    with warnings.catch_warnings():
+        warnings.simplefilter('ignore')
+        r = census.census(repo_root())
+    run.rule('HSM-PROTOCOL.census', 'the handler protocol H1/Hs/H3 assumed by the model, checked against every state handler found in test/ and examples/ (informational)')
+    run.inst('HSM-PROTOCOL.census', 'test/ + examples/', '%d state handlers in %d files, %d ways out classified: %d handlers follow the protocol' %
+             (r['handlers'], r['files'], r['paths'], r['conforming_handlers']), True, nontrivial=False)
+    for d, k in sorted(r['deviations'].items()):
+        run.note('handler-protocol census: %d handler(s) deviate - %s' % (k, d))
+    for ex in r['examples']:
+        run.note('handler-protocol census example: ' + ex)
+    return r
